@@ -205,84 +205,135 @@ theorem good_act {imm : Imm} {prog : List MStep} {ph : Phase} {pc : Nat} {ρ : N
   | zero => simp [chk] at hc
   | succ fuel =>
     unfold chk at hc
-    unfold act
     cases hp : prog[pc]? with
     | none => simp [hp] at hc
     | some st =>
-      simp only [hp] at hc ⊢
+      simp only [hp] at hc
       cases st with
       | set r e =>
-        simp only at hc ⊢
-        refine ⟨⟨fuel, _, hc, Abs_set habs r _ _ (fun v hv => aeval_sound habs e v hv)⟩, rfl, ?_⟩
-        intro _; exact ⟨rfl, fun m2 => by simp [hp]⟩
+        have hact : ∀ m2, act imm prog m2 pc ρ = .cont m2 (pc + 1) (setReg ρ r (e.eval ρ)) :=
+          fun m2 => by simp [act, hp]
+        rw [hact m]; dsimp only
+        exact ⟨⟨fuel, _, hc, Abs_set habs r _ _ (fun v hv => aeval_sound habs e v hv)⟩, rfl,
+          fun _ => ⟨rfl, hact⟩⟩
       | read r f =>
+        have hact : ∀ m2, act imm prog m2 pc ρ = .cont m2 (pc + 1) (setReg ρ r (readFld imm m2 f)) :=
+          fun m2 => by simp [act, hp]
+        rw [hact m]; dsimp only
         cases f with
         | shared =>
-          simp only at hc ⊢
+          simp only at hc
           refine ⟨⟨fuel, _, hc, Abs_set habs r _ _ (fun v hv => by
-            cases hv; simp [readFld, hs, b2n])⟩, rfl, ?_⟩
-          intro _; exact ⟨rfl, fun m2 => by simp [hp, readFld]⟩
+            cases hv; simp [readFld, hs, b2n])⟩, rfl, fun _ => ⟨rfl, fun m2 => ?_⟩⟩
+          rw [hact m2]; simp [readFld]
         | maxPages =>
-          simp only at hc ⊢
-          refine ⟨⟨fuel, _, hc, Abs_set habs r _ _ (fun v hv => by cases hv)⟩, rfl, ?_⟩
-          intro _; exact ⟨rfl, fun m2 => by simp [hp, readFld]⟩
+          simp only at hc
+          refine ⟨⟨fuel, _, hc, Abs_set habs r _ _ (fun v hv => by cases hv)⟩, rfl, fun _ => ⟨rfl, fun m2 => ?_⟩⟩
+          rw [hact m2]; simp [readFld]
         | data =>
-          simp only [Bool.and_eq_true, beq_iff_eq] at hc ⊢
-          refine ⟨⟨fuel, _, hc.2, Abs_set habs r _ _ (fun v hv => by cases hv)⟩, rfl, ?_⟩
-          intro hne; exact absurd hc.1 hne
+          simp only [Bool.and_eq_true, beq_iff_eq] at hc
+          exact ⟨⟨fuel, _, hc.2, Abs_set habs r _ _ (fun v hv => by cases hv)⟩, rfl, fun hne => absurd hc.1 hne⟩
         | size =>
-          simp only [Bool.and_eq_true, beq_iff_eq] at hc ⊢
-          refine ⟨⟨fuel, _, hc.2, Abs_set habs r _ _ (fun v hv => by cases hv)⟩, rfl, ?_⟩
-          intro hne; exact absurd hc.1 hne
+          simp only [Bool.and_eq_true, beq_iff_eq] at hc
+          exact ⟨⟨fuel, _, hc.2, Abs_set habs r _ _ (fun v hv => by cases hv)⟩, rfl, fun hne => absurd hc.1 hne⟩
         | pages =>
-          simp only [Bool.and_eq_true, beq_iff_eq] at hc ⊢
-          refine ⟨⟨fuel, _, hc.2, Abs_set habs r _ _ (fun v hv => by cases hv)⟩, rfl, ?_⟩
-          intro hne; exact absurd hc.1 hne
+          simp only [Bool.and_eq_true, beq_iff_eq] at hc
+          exact ⟨⟨fuel, _, hc.2, Abs_set habs r _ _ (fun v hv => by cases hv)⟩, rfl, fun hne => absurd hc.1 hne⟩
       | write f e =>
         cases f with
         | pages =>
-          simp only [Bool.and_eq_true, beq_iff_eq, writeFld] at hc ⊢
+          have hact : act imm prog m pc ρ = .cont { m with pages := e.eval ρ } (pc + 1) ρ := by
+            simp [act, hp, writeFld]
+          rw [hact]; dsimp only
+          simp only [Bool.and_eq_true, beq_iff_eq] at hc
           exact ⟨⟨fuel, _, hc.2, habs⟩, rfl, fun hne => absurd hc.1 hne⟩
         | size =>
-          simp only [Bool.and_eq_true, beq_iff_eq, writeFld] at hc ⊢
+          have hact : act imm prog m pc ρ = .cont { m with size := e.eval ρ } (pc + 1) ρ := by
+            simp [act, hp, writeFld]
+          rw [hact]; dsimp only
+          simp only [Bool.and_eq_true, beq_iff_eq] at hc
           exact ⟨⟨fuel, _, hc.2, habs⟩, rfl, fun hne => absurd hc.1 hne⟩
         | data => simp at hc
         | maxPages => simp at hc
         | shared => simp at hc
       | brUnless e k =>
-        simp only at hc ⊢
+        have hact : ∀ m2, act imm prog m2 pc ρ =
+            .cont m2 (if e.eval ρ ≠ 0 then pc + 1 else pc + 1 + k) ρ := fun m2 => by simp [act, hp]
+        rw [hact m]; dsimp only
+        refine ⟨?_, rfl, fun _ => ⟨rfl, hact⟩⟩
         cases hv : aeval c e with
         | some v =>
           simp only [hv] at hc
           have he := aeval_sound habs e v hv
           rw [he]
           by_cases hv0 : v ≠ 0
-          · simp only [hv0, ↓reduceIte] at hc ⊢
-            refine ⟨⟨fuel, _, hc, habs⟩, rfl, fun _ => ⟨rfl, fun m2 => ?_⟩⟩
-            simp [hp, he, hv0]
-          · simp only [hv0, ↓reduceIte] at hc ⊢
-            refine ⟨⟨fuel, _, hc, habs⟩, rfl, fun _ => ⟨rfl, fun m2 => ?_⟩⟩
-            simp [hp, he, hv0]
+          · rw [if_pos hv0] at hc ⊢
+            exact ⟨fuel, _, hc, habs⟩
+          · rw [if_neg hv0] at hc ⊢
+            exact ⟨fuel, _, hc, habs⟩
         | none =>
           simp only [hv, Bool.and_eq_true] at hc
           by_cases hv0 : e.eval ρ ≠ 0
-          · simp only [hv0, ↓reduceIte]
-            refine ⟨⟨fuel, _, hc.1, habs⟩, rfl, fun _ => ⟨rfl, fun m2 => ?_⟩⟩
-            simp [hp, hv0]
-          · simp only [hv0, ↓reduceIte]
-            refine ⟨⟨fuel, _, hc.2, habs⟩, rfl, fun _ => ⟨rfl, fun m2 => ?_⟩⟩
-            simp [hp, hv0]
+          · rw [if_pos hv0]
+            exact ⟨fuel, _, hc.1, habs⟩
+          · rw [if_neg hv0]
+            exact ⟨fuel, _, hc.2, habs⟩
       | ret e =>
-        simp only [bne_iff_ne, ne_eq] at hc ⊢
-        exact ⟨hc, fun m2 => by simp [hp]⟩
+        have hact : ∀ m2, act imm prog m2 pc ρ = .ret (e.eval ρ) := fun m2 => by simp [act, hp]
+        rw [hact m]; dsimp only
+        simp only [bne_iff_ne, ne_eq] at hc
+        exact ⟨hc, hact⟩
       | lock =>
-        simp only [Bool.and_eq_true, beq_iff_eq] at hc ⊢
-        exact ⟨hc.1, ⟨fuel, _, hc.2, habs⟩, fun m2 => by simp [hp]⟩
+        have hact : ∀ m2, act imm prog m2 pc ρ = .lock (pc + 1) := fun m2 => by simp [act, hp]
+        rw [hact m]; dsimp only
+        simp only [Bool.and_eq_true, beq_iff_eq] at hc
+        exact ⟨hc.1, ⟨fuel, _, hc.2, habs⟩, hact⟩
       | unlock =>
-        simp only [Bool.and_eq_true, beq_iff_eq] at hc ⊢
-        exact ⟨hc.1, ⟨fuel, _, hc.2, habs⟩, fun m2 => by simp [hp]⟩
+        have hact : ∀ m2, act imm prog m2 pc ρ = .unlock (pc + 1) := fun m2 => by simp [act, hp]
+        rw [hact m]; dsimp only
+        simp only [Bool.and_eq_true, beq_iff_eq] at hc
+        exact ⟨hc.1, ⟨fuel, _, hc.2, habs⟩, hact⟩
       | realloc r p n => simp at hc
       | memset d v n => simp at hc
       | abort => simp at hc
+
+/-- once the mutex has been released, the rest of a checked operation does not touch the descriptor -/
+theorem post_runSeq_mem {imm : Imm} {prog : List MStep} (hs : imm.shared = true) :
+    ∀ (n : Nat) (m : Mem) (pc : Nat) (ρ : Nat → Nat) (r : Mem × Nat),
+      Good prog .post pc ρ → runSeq imm prog n m pc ρ = some r → r.1 = m := by
+  intro n
+  induction n with
+  | zero => intro m pc ρ r _ h; simp [runSeq] at h
+  | succ n ih =>
+    intro m pc ρ r hg h
+    have ga := good_act hs hg m
+    rw [runSeq] at h
+    cases ha : act imm prog m pc ρ with
+    | cont m' pc' ρ' =>
+      simp only [ha] at h ga
+      have := (ga.2.2 (by decide)).1
+      subst this
+      exact ih _ _ _ _ ga.1 h
+    | lock pc' => simp only [ha] at ga; cases ga.1
+    | unlock pc' => simp only [ha] at ga; cases ga.1
+    | ret v => simp only [ha] at h; cases h; rfl
+    | abort => simp only [ha] at ga
+    | stuck => simp only [ha] at ga
+
+/-- what a step of a read-only operation can be -/
+theorem readOnly_act {imm : Imm} {prog : List MStep} (h : ReadOnly prog = true) (m : Mem) (pc : Nat) (ρ : Nat → Nat) :
+    match act imm prog m pc ρ with
+    | .cont m' _ _ => m' = m
+    | .lock _ => False
+    | .unlock _ => False
+    | .abort => False
+    | _ => True := by
+  unfold act
+  cases hp : prog[pc]? with
+  | none => simp
+  | some st =>
+    have hmem := List.mem_of_getElem? hp
+    have := (List.all_eq_true.mp h) st hmem
+    cases st <;> simp_all
 
 end W2c2Verif.Model.Grow
